@@ -191,7 +191,10 @@ class Hand:
     """expands every invocation; identifiers written in a macro body get the suffix _h<k> where k numbers the
     invocation; parameters are replaced by the actuals.  Works on trees (an `expr` actual stays one node)."""
 
-    def __init__(self, prog, limit=400):
+    def __init__(self, prog, limit=400, leak=()):
+        # leak: (macro, spelling) pairs that are NOT made fresh (a deliberately unhygienic expansion: the tie uses it to
+        # check that a designed input tells sharing / capture of that local apart from the hygienic expansion)
+        self.leak = {(m, n) for m, n in leak}
         self.defs = {}
         for d in prog["macros"]:
             self.defs[d["name"]] = d        # the last definition wins, as in the implementation
@@ -203,6 +206,8 @@ class Hand:
             a = env[v[1]]
             assert a[0] == "v", "non-variable actual at a variable position"
             return a[1]
+        if scope and (v[2], v[1]) in self.leak:
+            return ["id", v[1], None]
         return ["id", _fresh(v[1], scope), None] if scope else v
 
     def term(self, t, env, scope):
@@ -267,8 +272,8 @@ class Hand:
         return dict(heads=heads, body=body)
 
 
-def hand_expand(p):
-    h = Hand(p)
+def hand_expand(p, leak=()):
+    h = Hand(p, leak=leak)
     return dict(rels=p["rels"], macros=[], rules=[h.rule(r) for r in p["rules"]], head_macros=[])
 
 
